@@ -669,8 +669,14 @@ def _restore_pairing(fi, subs, adds):
                 s.target if isinstance(s, ast.AugAssign) else s.targets[0], ast.Subscript) and ast.unparse(
                 (s.target if isinstance(s, ast.AugAssign) else s.targets[0]).value) == log
             if is_call or is_tally:
-                got = sorted({x.id for x in ast.walk(s) if isinstance(x, ast.Name)} - {log})
-                if got == idx_names:
+                got = {x.id for x in ast.walk(s) if isinstance(x, ast.Name)} - {log}
+                # a local that only names the logged key (`entry = (a, b); log.append(entry)`) stands for its parts
+                for _ in range(2):
+                    for prev in blk[:pos]:
+                        if isinstance(prev, ast.Assign) and len(prev.targets) == 1 and isinstance(prev.targets[0], ast.Name) \
+                                and prev.targets[0].id in got:
+                            got = (got - {prev.targets[0].id}) | {x.id for x in ast.walk(prev.value) if isinstance(x, ast.Name)}
+                if sorted(got) == idx_names:
                     logged = True
         if not logged:
             return False, "decrement is not recorded in the log %s the restore loop iterates" % log, d
